@@ -118,11 +118,11 @@ func (e *Env) absCall(call *ast.CallExpr, st *State, cl callee, recvVal Value, a
 		return ks, true
 	}
 	switch {
-	case strings.HasSuffix(full, "leveldb.(*iComparer).uCompare") || (cl.iface && name == "Compare" && len(args) == 2):
+	case strings.HasSuffix(full, "leveldb.iComparer).uCompare") || (cl.iface && name == "Compare" && len(args) == 2):
 		if ks, ok := keyArgs(2); ok {
 			return cmp3(ks[0].Rank, ks[1].Rank), true
 		}
-	case strings.HasSuffix(full, "leveldb.(*iComparer).Compare"):
+	case strings.HasSuffix(full, "leveldb.iComparer).Compare"):
 		a, ok1 := args[0].(*IKeyV)
 		b, ok2 := args[1].(*IKeyV)
 		if ok1 && ok2 {
@@ -135,6 +135,24 @@ func (e *Env) absCall(call *ast.CallExpr, st *State, cl callee, recvVal Value, a
 	case full == "bytes.Equal":
 		if ks, ok := keyArgs(2); ok {
 			return Eq(ks[0].Rank, ks[1].Rank), true
+		}
+	case strings.HasSuffix(full, "leveldb.parseInternalKey"):
+		// (ukey, seq, kt, err): the parts of the key; err == nil only for a well-formed key
+		if len(args) == 1 {
+			var ik *IKeyV
+			switch k := args[0].(type) {
+			case *IKeyV:
+				ik = k
+			case *KeyV:
+				ik = c.asIKey(st, k)
+			}
+			if ik != nil {
+				kerr := c.freshVar("r_kerr", SInt)
+				st.assume(IGe(kerr, IntC(0)))
+				seq, kt := IDivE(ik.Num, IntC(256)), IModE(ik.Num, IntC(256))
+				st.assume(Implies(Eq(kerr, IntC(0)), ILe(kt, IntC(1))))
+				return &TupleV{Vs: []Value{&KeyV{Rank: ik.U.Rank, Nil: TFalse, Len: ik.U.Len}, seq, kt, kerr}}, true
+			}
 		}
 	case strings.HasSuffix(full, "leveldb.makeInternalKey"):
 		if len(args) == 4 {
@@ -254,3 +272,12 @@ func itoa(n int) string {
 }
 
 var _ = token.NoPos
+
+// asIKey: a byte string viewed as an internal key; user key and packed number are functions of the byte string.
+func (c *FCtx) asIKey(st *State, k *KeyV) *IKeyV {
+	num := App("ik.num$", SInt, k.Rank)
+	if st != nil {
+		st.assume(c.rangeFact(types.Typ[types.Uint64], num))
+	}
+	return &IKeyV{U: &KeyV{Rank: App("ik.ukey$", SKey, k.Rank), Nil: k.Nil, Len: ISub(k.Len, IntC(8))}, Num: num}
+}
